@@ -290,6 +290,10 @@ func Ite(c, a, b bool) bool {
 	return b
 }
 
+// ClockMaxAdvance bounds how far the symbolic clock may advance after its first reading
+// during this harness run (a request is handled in bounded time). Natively a no-op.
+func ClockMaxAdvance(d time.Duration) {}
+
 // LowerByte is ASCII lower-casing of one byte, without branching.
 func LowerByte(c byte) byte {
 	if c >= 'A' && c <= 'Z' {
@@ -421,7 +425,7 @@ func Replay(harnesses map[string]func()) (status, detail string) {
 			return "reproduced", fmt.Sprintf("assertion %q fails natively; missing draws: %v", f, Missing)
 		}
 	}
-	return "not-reproduced", fmt.Sprintf("assertion %q holds natively (failed natively: %v, missing draws: %v)", cex.Label, Failed, Missing)
+	return "not-reproduced", fmt.Sprintf("assertion %q holds natively (failed natively: %v, missing draws: %v, reached: %v, trace: %v)", cex.Label, Failed, Missing, Reached, Trace)
 }
 
 // RunSchedule, Yield, ThreadName: see sched_native.go
